@@ -362,7 +362,11 @@ func (x *Exec) execField(node *model.Node, static string, f *model.Field, out ma
 	if fd.Echo {
 		v = EchoText(f.Name, args)
 	} else {
-		v = node.F[f.Name]
+		k := f.Name
+		if fd.Variant != nil {
+			k += fd.Variant(args)
+		}
+		v = node.F[k]
 	}
 	nth := -1
 	if flt, bad := x.Plan[ck]; bad && flt.Kind == "nth" {
@@ -414,10 +418,20 @@ func (x *Exec) complete(t *model.TypeRef, v interface{}, f *model.Field, path []
 	if isNilPtr(v) {
 		return nil // a nil pointer / map / func / chan is Go's null whatever the declared type
 	}
+	if m, isM := v.(Matcher); isM {
+		return m // a data value that is itself a set of acceptable outcomes
+	}
 	if t.NonNull {
 		return x.complete(t.Of, v, f, path, nth)
 	}
 	if t.List {
+		unordered := false
+		if u, isU := v.(model.VUnordered); isU {
+			v, unordered = model.VList(u), true
+		}
+		if unordered {
+			defer func() {}()
+		}
 		items, isList := AsList(v)
 		if !isList {
 			x.err(path, "not-list")
@@ -432,6 +446,9 @@ func (x *Exec) complete(t *model.TypeRef, v interface{}, f *model.Field, path []
 				continue
 			}
 			out[i] = x.complete(t.Of, e, f, p, -1)
+		}
+		if unordered {
+			return Unordered(out)
 		}
 		return out
 	}
